@@ -368,6 +368,41 @@ def _btree_sink_loop(body):
     return True
 
 
+def check_first_wins(ctx, F):
+    """det.first-wins: in the walk-ordered phase (functions over Parsed* slices, before sort_members) a map keyed by an object's NAME alone
+    keeps, for objects that share a name (one per version - the corpus has hundreds), the value of whichever the file-system walk delivered
+    first (`entry().or_insert`) or last (`insert`): the result then depends on the directory order. A set of names (no value) is fine."""
+    n = 0
+    for fn in F.all("fn"):
+        if fn.get("hir") is None or fn["path"].startswith(OUT_OF_SCOPE):
+            continue
+        if not any(any(t in ty for t in WALK_ORDERED_TYPES) for ty in fn["inputs"]):
+            continue
+        for x in H.walk(fn["hir"]):
+            if H.tag(x) != "mcall":
+                continue
+            mc = H.mcall(x)
+            key = val = None
+            rty = (mc["recv_ty"] or "")
+            if mc["name"] == "insert" and len(mc["args"]) == 2 and ("BTreeMap" in rty or "HashMap" in rty):
+                key, val = mc["args"]
+            elif mc["name"] in ("or_insert", "or_insert_with") and len(mc["args"]) == 1 and "Entry" in rty:
+                ent = H.strip(mc["recv"])
+                if H.tag(ent) == "mcall" and ent[2] == "entry" and H.mcall(ent)["args"]:
+                    key, val = H.mcall(ent)["args"][0], mc["args"][0]
+            if key is None:
+                continue
+            n += 1
+            kcalls = [y[2] for y in H.walk(key) if H.tag(y) == "mcall"] + [y[2] for y in H.walk(key) if H.tag(y) == "field"]
+            by_name_only = any(c in ("name", "get_real_name") for c in kcalls) and not any(c in ("tags", "versions", "file_info", "all_versions", "first_version") for c in kcalls)
+            v = H.strip(val)
+            trivial = H.tag(v) == "lit" or (H.tag(v) == "tup" and not v[1]) or (H.tag(v) == "path" and "Ctor" in str(v[2]))
+            if by_name_only and not trivial:
+                ctx.violate("det.first-wins", f"{fn['path']}|{mc['name']}", f"{fn['path']}: a map keyed by the object's name alone is filled while walking the parsed objects in file-system order "
+                            f"(`{H.short(x, maxlen=90)}`): for same-named objects of different versions the value that is kept depends on the order in which the wowm files were read", fn["file"], fn["line"])
+    ctx.rule("det.first-wins", n, floor=0, note="map insertions with a value in functions of the walk-ordered phase; keyed by name alone = order-dependent")
+
+
 def check_tie_order(ctx, F):
     fns = [fn for fn in F.all("fn") if fn.get("hir") is not None and not fn["path"].startswith(OUT_OF_SCOPE)]
     n_sorts = n_partial = n_cons = 0
@@ -714,6 +749,7 @@ def run(ctx):
     check_sweep_witness(ctx, F)
     check_write_witness(ctx, F)
     check_tie_order(ctx, F)
+    check_first_wins(ctx, F)
     ctx.assume("byte-for-byte reproduction of the ~3,900 committed artefacts and convergence from damaged trees require running the generator (which, in this snapshot, aborts in its documentation printer on the unmodified tree) and are not decided")
     ctx.assume("the item/spell data printer (base_printer) is outside the artefact list of the property; its tie-breaking by hash order in Optimizations::new is noted in DESIGN.md, not reported")
     return "other", EXPLANATION, {}
